@@ -27,6 +27,10 @@
 
 #include "ares_private.h"
 
+#ifdef HAVE_LIMITS_H
+#  include <limits.h>
+#endif
+
 #ifdef HAVE_ARPA_INET_H
 #  include <arpa/inet.h>
 #endif
@@ -323,9 +327,14 @@ ares_status_t ares_init_by_options(ares_channel_t            *channel,
     /* Apparently some integrations were passing -1 to tell c-ares to use
      * the default instead of just omitting the optmask */
     if (options->timeout > 0) {
-      /* Convert to milliseconds */
-      optmask          |= ARES_OPT_TIMEOUTMS;
-      channel->timeout  = (unsigned int)options->timeout * 1000;
+      /* Convert to milliseconds, staying within what ARES_OPT_TIMEOUTMS and
+       * ares_save_options() can express */
+      optmask |= ARES_OPT_TIMEOUTMS;
+      if (options->timeout > INT_MAX / 1000) {
+        channel->timeout = INT_MAX;
+      } else {
+        channel->timeout = (unsigned int)options->timeout * 1000;
+      }
     }
   }
 
